@@ -227,6 +227,7 @@ def concatenate_clauses(ctx):
         for t, pol in p_.guards():
             out += cond_atoms(t, pol)
         return out
+    seen_paths = []
     for p in Enumerator(where=f.qualname).body_paths(loop):
         val = at.path_atoms(p)
         if val is None or p.term == RAISE:
@@ -242,6 +243,7 @@ def concatenate_clauses(ctx):
         if m is None:
             # the `elif suffix: assert not match` branch
             m = False if any(it.kind == 'assert' and 'not' in u(it.node.test) for it in p.items) else None
+        seen_paths.append((state_conds(p), m))
         if m is True:
             run.check(not own and not tgt and len(incs) == 1, 'CAT', where(repo, loop), f.qualname,
                       stream.fmt_atoms(val), 'a selected resource must lose its descriptor and be counted exactly once')
@@ -264,6 +266,14 @@ def concatenate_clauses(ctx):
                           'CAT', where(repo, tgt[0]), f.qualname, stream.fmt_atoms({a: v for a, v in val.items() if a[0] == 'MATCH'}) + ' places target',
                           'the target descriptor is not placed exactly once, before the first unselected resource that '
                           'follows the selected run')
+    # once the scan is "after the run", a further selected resource is refused (assert / raise): the selected resources must be
+    # consecutive, because the stream phase takes num_concatenated consecutive streams for the one target - a selected resource
+    # after a gap would keep its descriptor but be emitted as a second, undeclared concatenation
+    late = [m_ for conds_, m_ in seen_paths if any((v_, c_, True) in conds_ for v_, c_ in after_state)]
+    run.check(bool(after_state) and bool(late) and all(m_ is False for m_ in late), 'CAT', where(repo, loop), f.qualname,
+              'after the run: assert not match',
+              'a selected resource that follows unselected ones is not refused: its descriptor stays in the package while its rows are '
+              'emitted as a second concatenated stream - descriptors and streams no longer agree')
     # post-loop placement: exactly when the scan never reached the "after the run" state
     body = loop._parent.body
     post = [st for st in body[body.index(loop) + 1:] if any(
